@@ -120,6 +120,21 @@ PROPS = {
   'thorough': {'cases': 256000, 'max_size': 300, 'exhaustive': True, 'wall_s': 3000},
   'essential_classes': ['deviation:bit-flip', 'deviation:other-alg-same-digest', 'deviation:other-alg', 'deviation:level', 'deviation:level>255', 'deviation:combined', 'no-deviation', 'api:verifyWithPolicy+context', 'api:verifyDataHash', 'api:verifyDocument', 'policy:general', 'policy:key'],
   'assumptions': ['reference builder produces consistent signatures (checked per case with the reference evaluation)'],
+ }, 'C07': {
+  'technique': 'model-based property testing (rapidcheck): reference aggregator with a deviation catalogue behind simulated TCP/HTTP transports; returned signatures decoded and evaluated by the reference model',
+  'level_text': 'The blocking (signAggregated, createSignature, Signature_sign) and asynchronous signing paths are driven over simulated ksi+tcp (in-memory sockets with generated chunking) and ksi+http (stub libcurl) '
+                'against a reference aggregator that checks the request at the transport boundary (hash, level, login id, MAC by the reference HMAC, PDU version) and answers honestly (random tree shapes, 1-4 chains, calendar chain, '
+                'authentication record) or with one of 23 deviations. Success must come with a signature that decodes to a consistent model for the requested hash and level and only from an authentic status-zero own-id reply; '
+                'honest replies must succeed; untrusted input algorithms must be refused before anything is sent.',
+  'level_note': 'Trusted: ref/sigmodel.cpp, ref/pdu.cpp, the transport simulations in sim/ (documented POSIX / libcurl behaviour). Block-signer signing is covered under C16.',
+  'rule': 'rapidcheck choice strings -> (transport, API, PDU version, MAC algorithm, login/key, document hash incl. SHA-1 and unsupported algorithms, level, server deviation, status code, chunking). '
+          'Non-trivial = a deviation, or an honest reply with >= 2 chains; distinct = distinct (transport, API, version, deviation, level, algorithm).',
+  'quick': {'cases': 6400, 'max_size': 300, 'wall_s': 900},
+  'thorough': {'cases': 128000, 'max_size': 400, 'wall_s': 3000},
+  'sim': ['simsock', 'fakecurl', 'simclock'],
+  'essential_classes': ['dev:honest', 'dev:foreign-id', 'dev:other-hash', 'dev:status', 'dev:error-pdu', 'dev:error-pdu-status0', 'dev:bad-mac', 'dev:no-mac', 'dev:inconsistent-chains', 'dev:other-pdu-version', 'outcome:success', 'outcome:error',
+                        'api:async', 'api:signAggregated', 'transport:http', 'transport:tcp', 'pdu:v1', 'pdu:v2', 'untrusted-algorithm'],
+  'assumptions': ['simulated sockets / libcurl behave as documented'],
  },
 }
 
